@@ -8,6 +8,7 @@ CONSTANTS
   OtherPeer = TRUE
   ClearOnAnyDisconnect = TRUE
   SeqCallers = FALSE
+  GhostCallers = {}
   PeerMayClose = FALSE
   LeakIfGoneAtTimeout = FALSE
   RemoveOnTimeout = TRUE
